@@ -105,15 +105,25 @@ class Lock:
         self.fh.close()
 
 
-def prune_builds(keep=2):
+def prune_builds(keep=3):
+    """removes old per-tree build directories; keeps the current one, the most recent one that was built from a clean
+    (committed) /repo tree, and the `keep` most recently used others"""
     if not os.path.isdir(BUILD):
         return
+    cur = build_dir()
+    try:
+        clean = subprocess.run(["git", "-C", REPO, "status", "--porcelain", "--untracked-files=no"], stdout=subprocess.PIPE, text=True).stdout.strip() == ""
+        if clean and os.path.isdir(cur):
+            open(os.path.join(cur, ".clean"), "w").write(str(time.time()))
+    except Exception:
+        pass
     ds = [os.path.join(BUILD, d) for d in os.listdir(BUILD)
           if os.path.isdir(os.path.join(BUILD, d)) and re.fullmatch(r"[0-9a-f]{16}", d)]
     ds.sort(key=lambda p: os.path.getmtime(p), reverse=True)
-    cur = build_dir()
+    cleans = sorted([d for d in ds if os.path.exists(os.path.join(d, ".clean"))], key=lambda d: os.path.getmtime(os.path.join(d, ".clean")), reverse=True)
+    protected = {cur} | set(cleans[:1])
     for d in ds[keep:]:
-        if d != cur:
+        if d not in protected:
             shutil.rmtree(d, ignore_errors=True)
 
 
